@@ -12,14 +12,11 @@
   Partial clauses (full statements kept as `def …_full : Prop`):
     * `C06_circle_export_full` is FALSE for the code as it is (known finding; witness proved): the exported geometry of
       a circle is the disc of radius r/2.
-    * `C06_rect_ring_eq_box_full`: crossing-number test of the exported rectangle ring = the box.  Proved: for every
-      axis-parallel rectangle (`C06_rect_ring_eq_box_partial`), and for every rotation box = convex quadrilateral of
-      the exported vertices (`C06_box_eq_quad`); the step "crossing number of a rotated convex quadrilateral = all
-      four edge tests" is compared by the harness on every rectangle case (driver op `rect`), not proved.
     * agreement of GEOS (`intersects`, `dwithin`, `STRtree.query`) with the exact predicates: parameter; the
       correspondence compares on exact-grid inputs.
 -/
 import CRProofs.Geom
+import CRProofs.Quad
 import CRProofs.Index
 namespace CR.Props.C06
 open CR CR.Geom CR.Index
@@ -77,12 +74,26 @@ def C06_rect_ring_eq_box_full : Prop :=
   ∀ (l w : Rat) (ctr : Pt) (c s : Rat) (p : Pt), 0 < l → 0 < w → c * c + s * s = 1 →
     rectContains l w ctr c s p = inBox l w ctr c s p
 
-/-- Proved part: every axis-parallel rectangle (orientation 0: `(c, s) = (1, 0)`), any size, any centre, any point.
-    Missing for the full statement: the same for a rotated frame, i.e. crossing number of a convex quadrilateral in
-    general position = conjunction of its four edge tests (`C06_box_eq_quad` supplies box = those four tests). -/
-theorem C06_rect_ring_eq_box_partial (l w : Rat) (ctr p : Pt) (hl : 0 < l) (hw : 0 < w) :
-    rectContains l w ctr 1 0 p = inBox l w ctr 1 0 p :=
-  rect_axis l w hl hw ctr p
+/-- … and it holds: for a rectangle at ANY pose the crossing-number test with boundary inclusion of the ring
+    `Rectangle.vertices` exports (what `contains_point` and `shapely_object` use) is the `l`-by-`w` box at that pose.
+    (`CRProofs/Quad.lean`: edges are crossed iff their ends straddle the ray's line and the point is strictly left of
+    an upward / right of a downward edge; first-quadrant orientations by a finite case analysis over the signs of the
+    vertex heights; the other orientations by describing the same rectangle turned by 90°.) -/
+theorem C06_rect_ring_eq_box : C06_rect_ring_eq_box_full :=
+  fun l w ctr c s p hl hw h => rect_ring_eq_box l w ctr c s p hl hw h
+
+/-- Containment test = exported geometry = denoted set, for rectangles. -/
+theorem C06_contains_denotes_rect (l w : Rat) (ctr : Pt) (c s : Rat) (p : Pt) (hl : 0 < l) (hw : 0 < w)
+    (h : c * c + s * s = 1) : (Prim.rect l w ctr c s).contains p = (Prim.rect l w ctr c s).denotes p :=
+  rect_ring_eq_box l w ctr c s p hl hw h
+
+/-- … hence the ring test is also the convex-quadrilateral test of the four exported vertices. -/
+theorem C06_rect_ring_eq_quad (l w : Rat) (ctr : Pt) (c s : Rat) (p : Pt) (hl : 0 < l) (hw : 0 < w)
+    (h : c * c + s * s = 1) :
+    rectContains l w ctr c s p = true ↔
+      inQuadCW (place ctr c s ⟨-(l / 2), -(w / 2)⟩) (place ctr c s ⟨-(l / 2), w / 2⟩)
+               (place ctr c s ⟨l / 2, w / 2⟩) (place ctr c s ⟨l / 2, -(w / 2)⟩) p = true := by
+  rw [rect_ring_eq_box l w ctr c s p hl hw h]; exact C06_box_eq_quad l w ctr c s p hl hw h
 
 example : rectContains 4 2 ⟨0, 0⟩ (3 / 5) (4 / 5) ⟨6 / 5, 8 / 5⟩ = true ∧ inBox 4 2 ⟨0, 0⟩ (3 / 5) (4 / 5) ⟨6 / 5, 8 / 5⟩ = true ∧
     rectContains 4 2 ⟨0, 0⟩ (3 / 5) (4 / 5) ⟨6 / 5 + 1 / 100, 8 / 5 + 1 / 100⟩ = false := by decide +kernel
